@@ -22,7 +22,7 @@ import warnings
 from inspect import getfullargspec
 
 from collections import defaultdict, namedtuple, OrderedDict
-from collections.abc import Callable, Iterable
+from collections.abc import Callable, Iterable, Mapping
 from functools import partial, wraps, reduce
 from itertools import chain
 from operator import itemgetter, attrgetter
@@ -2675,6 +2675,9 @@ class Parameters:
         3. Hello 3. World
         """
         refs = {}
+        if arg is not Undefined and not isinstance(arg, Mapping):
+            # (read twice below: an iterator of pairs would be exhausted the first time)
+            arg = dict(arg)
         if self_.self is not None:
             private = self_.self._param__private
             params = list(kwargs if arg is Undefined else dict(arg, **kwargs))
